@@ -1,6 +1,7 @@
 # ruff: noqa: SIM113
 import collections.abc
 from collections.abc import Iterable, Mapping
+from dataclasses import is_dataclass
 from inspect import isabstract
 from typing import Callable
 
@@ -63,8 +64,14 @@ class IterableProvider(MorphingProvider):
         if issubclass(norm.origin, collections.abc.Mapping):
             raise CannotProvide
 
-        if is_named_tuple_class(norm.origin) or is_pydantic_class(norm.origin):
+        if (
+            is_named_tuple_class(norm.origin)
+            or is_pydantic_class(norm.origin)
+            or is_dataclass(norm.origin)
+            or hasattr(norm.origin, "__attrs_attrs__")
+        ):
             # a generic model with exactly one type argument is still a model, not Iterable[arg]
+            # (a dataclass or attrs class can define ``__iter__``)
             raise CannotProvide
 
         return norm, arg
